@@ -64,7 +64,7 @@ def gen_case(rng, tier, idx):
     scheds = []
     nrand = 4 if tier == "quick" else 8
     for _ in range(nrand):
-        scheds.append({"kind": rng.choice(["ones", "small", "mixed", "large", "overshoot"]), "seed": rng.getrandbits(32),
+        scheds.append({"kind": rng.choice(["ones", "small", "medium", "mixed", "mixed", "large", "overshoot"]), "seed": rng.getrandbits(32),
                        "first_call_init": rng.random() < 0.4, "noise": rng.random() < 0.35})
     return {"spec": spec, "short": short, "schedules": scheds, "suffix_k": rng.choice([4, 5, 6, 7]),
             "controller": gen_controller(rng, spec)}
@@ -94,8 +94,10 @@ def _steps(rng, kind):
             yield 1
         elif kind == "small":
             yield rng.randint(1, 7)
+        elif kind == "medium":
+            yield rng.randint(8, 60)
         elif kind == "mixed":
-            yield rng.choice([1, 1, 2, 3, 10, 30, 90, 400])
+            yield rng.choice([1, 1, 2, 3, 10, 30, 90, 400, rng.randint(1, 40), rng.randint(1, 40)])
         elif kind == "large":
             yield rng.choice([30, 100, 365, 1000])
         else:
